@@ -22,6 +22,7 @@ class Facts:
         self.wmarks = {}
         self.invs = []
         self.program_end = None
+        self.resolved = set()
         self.main_returned = False
         self.atexit = {}
         self.points = []
@@ -34,6 +35,8 @@ class Facts:
                 o["end"] = e
             elif k == "submit_call":
                 self.futs[e["fut"]] = {"submit": e, "done": None, "dones": []}
+            elif k == "fut_resolved":
+                self.resolved.add(e["fut"])
             elif k == "fut_done":
                 f = self.futs.setdefault(e["fut"], {"submit": None, "done": None, "dones": []})
                 f["dones"].append(e)
@@ -93,7 +96,7 @@ class Facts:
         return out
 
     def undone(self):
-        und = [n for n, f in self.handed_out().items() if f["done"] is None]
+        und = [n for n, f in self.handed_out().items() if f["done"] is None and n not in self.resolved]
         pe = self.program_end
         if pe is not None and und:
             # the driver's own record at the end of the program (Future.done() of every future it holds): a future that was
